@@ -143,6 +143,7 @@ def check(F, R):
     s_result(F, R, I, S)
     err_kind(F, R)
     s_any(F, R)
+    s_prim(F, R)
     import c06
     n = c06.d_scope_use(F, R, rule="D-SCOPE-USE")
     R.ob("D-SCOPE-USE", "functions", n >= 4, "", "expected at least 4 type-checking functions that open one frame per iteration, found %d" % n)
@@ -338,3 +339,45 @@ def s_any(F, R):
         R.ob("S-ANY", k, False, F.loc(f, n),
              "the checker accepts PrimitiveKind::Any here with no matching run-time guarantee (\"make it fail at runtime\"): e.g. `let a = [1, \"s\"]` ... `x >= a[1] * 2` type-checks and then fails in transform with WrongArgument")
     R.count("S-ANY.sites", len(sites))
+
+
+def s_prim(F, R):
+    """S-PRIM: a PreExp variant whose compile-time evaluation (as_primitive) is an unconditional type-class error must not
+    have a proper static kind, otherwise the checker accepts it in every position that evaluates its operand (range bounds,
+    function arguments, indexes, constants) and the transformer rejects it there with WrongArgument"""
+    ap = F.fn(PX + "::as_primitive") if "PX" in globals() else None
+    if ap is None:
+        ap = next((g for g in F.fn_list if g["path"].endswith("il_exp::PreExp::as_primitive")), None)
+    gt = next((g for g in F.fn_list if g["path"].endswith("WithType>::get_type") and "il_exp::PreExp" in g["path"]), None)
+    if not R.ob("S-PRIM", "anchor", ap is not None and gt is not None and "body" in ap and "body" in gt, "packages/rooc/src/parser/il/il_exp.rs", "PreExp::as_primitive and PreExp::get_type found"):
+        return
+    R.fn(ap["path"])
+    R.fn(gt["path"])
+    def arms_on_self(f):
+        for m in walk(f["body"]):
+            if m.get("k") == "Match" and sexp(strip(m["scrut"])) in ("self", "*self"):
+                return m["arms"]
+        return []
+    def variants_of(pat):
+        out = []
+        for p in walk(pat):
+            if p.get("k") in ("PTupleStruct", "PStruct", "PPath") and "PreExp::" in norm(p.get("path") or ""):
+                out.append(norm(p["path"]).rsplit("::", 1)[-1])
+        return out
+    dead = []
+    for arm in arms_on_self(ap):
+        b = strip(arm["body"])
+        while b.get("k") == "Block" and not b.get("stmts") and b.get("e") is not None:
+            b = strip(b["e"])
+        t = sexp(b)
+        if t.startswith("Result::Err(") and ("WrongArgument" in t or "from_wrong_" in t):
+            dead += variants_of(arm["pat"])
+    R.count("S-PRIM.unevaluable-variants", len(dead))
+    static = {}
+    for arm in arms_on_self(gt):
+        t = sexp(arm["body"])
+        for v in variants_of(arm["pat"]):
+            static[v] = [k for k in ("Number", "Boolean", "Integer", "PositiveInteger", "String", "Iterable") if "PrimitiveKind::" + k in t]
+    for v in sorted(set(dead)):
+        kinds = static.get(v)
+        R.ob("S-PRIM", v, not kinds, F.loc(ap), "PreExp::%s can never be evaluated to a primitive (as_primitive is an unconditional WrongArgument error) but its static kind is %s: the checker accepts it wherever that kind is accepted" % (v, kinds))
